@@ -87,6 +87,23 @@ Theorem C12_no_validation_when_not_required : forall e f dat ifs,
 Proof. exact require_false_no_validation. Qed.
 Print Assumptions C12_no_validation_when_not_required.
 
+(* ---- why wrapping Schema() / Template() in a retry is unsound as the code stands ------------------ *)
+(* RemoteTemplate sets its "downloaded" flag BEFORE the download.  In [run] a failed download
+   aborts the run, so the flag is harmless (C12_cache_transparent).  But a second call on the same
+   entry answers (nil schema, nil error) - "nothing to validate" - although the schema was never
+   retrieved; likewise the template becomes the empty string. *)
+Theorem C12_second_call_after_failed_download : forall fs t s,
+  download fs s = None -> download fs t = None ->
+  snd (rt_schema fs (new_rt t s)) = None /\
+  snd (rt_schema fs (fst (rt_schema fs (new_rt t s)))) = Some None /\
+  snd (rt_template fs (new_rt t s)) = None /\
+  snd (rt_template fs (fst (rt_template fs (new_rt t s)))) = Some None.
+Proof.
+  intros fs t s Hs Ht. unfold rt_schema, rt_template, new_rt; simpl. rewrite Hs, Ht. simpl.
+  repeat split; reflexivity.
+Qed.
+Print Assumptions C12_second_call_after_failed_download.
+
 (* ---- levels ------------------------------------------------------------------------------ *)
 (* [chain levels]: the data maps from the most general to the most specific level, merged key
    by key as config.mergeStringMaps does.
